@@ -151,7 +151,23 @@ def run(c):
         po = os.path.join(c.scratch, "one.ndjson")
         c.run_driver(drv, ["redo", pe, po])
         again = validate_small(read_ndjson(po))
-        return any(i == 0 and tt[3] == t[3] for i, tt in again)
+        if any(i == 0 and tt[3] == t[3] for i, tt in again): return True
+        if e["op"] == "Digest": return False
+        # the result may depend on what was rendered BEFORE it (a long-lived element refilled in place, library state): the
+        # preceding events of the same operation first, then the event, in one fresh process
+        prev, same = [], 0
+        for j in range(idx - 1, max(idx - 3000, -1), -1):
+            if ('"op":"%s"' % e["op"]) in events[j][:60]:
+                o = json.loads(events[j])
+                if len(prev) < 4:
+                    prev.insert(0, o)
+                elif len(o.get("b", [])) == len(e.get("b", [])) and o.get("b") != e.get("b") and same < 3:
+                    prev.insert(0, o); same += 1       # an earlier input of the same length (the same long-lived element)
+                if len(prev) >= 4 and same >= 3: break
+        json.dump(prev + [e], open(pe, "w"))
+        c.run_driver(drv, ["redoafter", pe, po])
+        again = validate_small(read_ndjson(po))
+        return any(tt[3] == t[3] for i, tt in again)
     seen = c.triage(mism, classify, confirm, per_class=2, total=16)
     # ---- binding self-test: corrupt one logged code point of an accepted event, TLC must reject exactly that event
     bad = {i for i, _ in mism}
